@@ -83,6 +83,9 @@ def res_r(r):
 
 
 def run(ctx):
+    import time as _time
+    _t0 = _time.time()
+    phases = {}
     from crc32c import crc32c
     from kio.schema.errors import ErrorCode
     from kio.serial import readers, writers
@@ -234,6 +237,7 @@ def run(ctx):
             if len(out[1]) != want or len(out[1]) > 5:
                 prop_bad.append({"function": name, "value": v[1], "what": f"varint has {len(out[1])} bytes, minimal is {want}"})
 
+    phases["implementation_cases_s"] = round(_time.time() - _t0, 1)
     # model comparison: single cases
     d = ctx["build"]
     header = ("From Coq Require Import ZArith List Bool String.\nFrom KioV Require Import Base.Res Codec.Value Prim.Public Codec.Check.\n"
@@ -241,14 +245,16 @@ def run(ctx):
     failing_w, failing_r, errors = [], [], []
     per = 1500
     files = []
-    for n, start in enumerate(range(0, len(wcases), per)):
-        chunk = wcases[start:start + per]
-        body = ";\n".join(f"{{| wp_name := {cstr(c[0])}%string; wp_val := {to_coq(c[1])}; wp_out := {res_w(c[2])} |}}" for c in chunk)
+    from ._records import _shards
+    wterms = [f"{{| wp_name := {cstr(c[0])}%string; wp_val := {to_coq(c[1])}; wp_out := {res_w(c[2])} |}}" for c in wcases]
+    for n, (start, chunk) in enumerate(_shards(wterms, max_chars=300_000, max_items=per)):   # by text size: a few cases are 100 KB each
+        body = ";\n".join(chunk)
         files.append((f"C11w_{n}", "w", start, header + f"Definition cases : list wpcase := [\n{body}\n].\nEval vm_compute in (failing check_wpcase cases).\n"))
-    for n, start in enumerate(range(0, len(rcases), per)):
-        chunk = rcases[start:start + per]
-        body = ";\n".join(f"{{| rp_name := {cstr(c[0])}%string; rp_in := {coq_bytes(c[1])}; rp_out := {res_r(c[2])} |}}" for c in chunk)
+    rterms = [f"{{| rp_name := {cstr(c[0])}%string; rp_in := {coq_bytes(c[1])}; rp_out := {res_r(c[2])} |}}" for c in rcases]
+    for n, (start, chunk) in enumerate(_shards(rterms, max_chars=300_000, max_items=per)):
+        body = ";\n".join(chunk)
         files.append((f"C11r_{n}", "r", start, header + f"Definition cases : list rpcase := [\n{body}\n].\nEval vm_compute in (failing (check_rpcase EC) cases).\n"))
+    phases["case_files_s"] = round(_time.time() - _t0, 1)
     # range sweeps
     sweeps = []
     for name in ("write_int8", "write_uint8"):
@@ -264,7 +270,8 @@ def run(ctx):
         "read_int16", "read_uint16", "read_unsigned_varint", "read_signed_varint", "read_compact_array_length",
         "read_compact_string", "read_nullable_legacy_string", "read_error_code", "read_legacy_string")
     for name in r2_names:
-        sweeps.append(("r2", name, 0, 256))
+        for q in range(0, 256, 32):        # by first byte, 8 processes per function (the model's CRC is bit-serial)
+            sweeps.append(("r2", name, q, 32))
     sweep_lines, sweep_expect = [], []
     n_sweep_evals = 0
     for kind, name, lo, n in sweeps:
@@ -279,22 +286,30 @@ def run(ctx):
             sweep_lines.append(f"Eval vm_compute in sweep_read1 EC {cstr(name)}%string [7].")
             n_sweep_evals += 256
         else:
-            blob = b"".join(ser_r(call_reader(pub_r[name], bytes([b0, b1]) + b"\x41\x42")) for b0 in range(256) for b1 in range(256))
-            sweep_lines.append(f"Eval vm_compute in sweep_read2 EC {cstr(name)}%string 0 256%nat [65; 66].")
-            n_sweep_evals += 65536
+            blob = b"".join(ser_r(call_reader(pub_r[name], bytes([b0, b1]) + b"\x41\x42")) for b0 in range(lo, lo + n) for b1 in range(256))
+            sweep_lines.append(f"Eval vm_compute in sweep_read2 EC {cstr(name)}%string {lo} {n}%nat [65; 66].")
+            n_sweep_evals += 256 * n
         sweep_expect.append((kind, name, lo, n, crc32c(blob)))
-    files.append(("C11sweep", "s", 0, header + "\n".join(sweep_lines) + "\n"))
+    for j, line in enumerate(sweep_lines):      # one process per sweep: they dominate the wall time
+        files.append((f"C11sweep_{j}", "s", j, header + line + "\n"))
+    phases["implementation_sweeps_s"] = round(_time.time() - _t0, 1)
     import subprocess
-    procs = []
-    for fname, kind, start, text in files:
-        (d / f"{fname}.v").write_text(text)
-        procs.append((fname, kind, start, subprocess.Popen(
-            ["timeout", "1500", "coqc", *common.COQ_ARGS, "-Q", str(d), "KioG", f"{fname}.v"], cwd=d,
-            stdout=subprocess.PIPE, stderr=subprocess.STDOUT, text=True)))
+    pending = list(files)
+    running = []
     sweep_bad = []
-    for fname, kind, start, p in procs:
+    while pending or running:
+        while pending and len(running) < 16:
+            fname, kind, start, text = pending.pop(0)
+            (d / f"{fname}.v").write_text(text)
+            running.append((fname, kind, start, subprocess.Popen(
+                ["timeout", "1500", "coqc", *common.COQ_ARGS, "-Q", str(d), "KioG", f"{fname}.v"], cwd=d,
+                stdout=subprocess.PIPE, stderr=subprocess.STDOUT, text=True)))
+        fname, kind, start, p = running.pop(0)
         rc, out = common.coq_result(d, fname, p)
+        import os as _os
         for ext in (".v", ".vo", ".vok", ".vos", ".glob"):
+            if ext == ".v" and _os.environ.get("VERIF_KEEP"):
+                continue
             (d / f"{fname}{ext}").unlink(missing_ok=True)
         if rc != 0:
             errors.append(f"{fname}: {out[-800:]}")
@@ -305,12 +320,13 @@ def run(ctx):
             failing_r += [start + i for i in common.parse_nat_list(out)]
         else:
             got = [int(x) for x in re.findall(r"=\s*(\d+)\s*\n?\s*:\s*Z", out)]
-            if len(got) != len(sweep_expect):
+            if len(got) != 1:
                 errors.append(f"sweep output not understood: {out[-500:]}")
             else:
-                for g, (k, name, lo, n, want) in zip(got, sweep_expect):
-                    if g != want:
-                        sweep_bad.append({"sweep": k, "function": name, "from": lo, "count": n, "model_crc": g, "impl_crc": want})
+                k, name, lo, n, want = sweep_expect[start]
+                if got[0] != want:
+                    sweep_bad.append({"sweep": k, "function": name, "from": lo, "count": n, "model_crc": got[0], "impl_crc": want})
+    phases["coq_s"] = round(_time.time() - _t0, 1)
     viol = []
     if errors:
         viol.append({"kind": "correspondence", "what": "model evaluation failed", "detail": errors[:3]})
@@ -330,6 +346,7 @@ def run(ctx):
                      "cases": disagreements[:8]})
     total = len(wcases) + len(rcases) + n_sweep_evals
     cov = {
+        "phase_seconds_cumulative": phases,
         "evaluations": total,
         "distinct_nontrivial": len({(c[0], c[1]) for c in wcases}) + len({(c[0], c[1]) for c in rcases}) + n_sweep_evals,
         "traces_validated_against_impl": total - len(failing_w) - len(failing_r),
